@@ -95,12 +95,18 @@ def run(prog, rep):
                             if (c[1] == "!=" and truth) or (c[1] == "==" and not truth):
                                 out.add(c[2])
                     return out
-                with_fix = [st for (st, stmt, cur) in r.rets if st.ret == C(1) and any(h[0] in balancers and h[0] in rot for h in st.tags.get("helpers", ()))]
+                succ = [st for (st, stmt, cur) in r.rets if st.ret == C(1)]
+                with_fix = [st for st in succ if any(h[0] in balancers and h[0] in rot for h in st.tags.get("helpers", ()))]
                 guard_sites = set.intersection(*[true_tests(st) for st in with_fix]) if with_fix else set()
                 if not guard_sites:
                     ok, msg = False, "the red-black fix-up is not guarded by the colour test of the removed node"
+                # what singles out the fix-up paths: the conditions all of them satisfy and not every successful path does (the node is
+                # childless, and black - the colour may be tested once and cached, so the test's site alone does not tell the paths apart)
+                # (the colour may be tested once and cached, so the test's site alone does not tell the childless path from the
+                # one-child path: a path on which a child takes the node's place stores that child's parent link)
+                has_child = lambda st: any(ent[0][0] == "fld" and ent[0][2] == "parent" for ent in st.tags.get("stores", ()))
                 for (st, stmt, cur) in r.rets:
-                    if st.ret == C(1) and st not in with_fix and (true_tests(st) & guard_sites):
+                    if st.ret == C(1) and st not in with_fix and (true_tests(st) & guard_sites) and not has_child(st):
                         ok, msg, where = False, "line %d: a childless black node is removed on a path that skips the red-black fix-up" % line(stmt), line(stmt)
         rep.ob("C13.1", fn, "remove", ok and nt > 0, "%d successful removal state(s): rebalancing helper runs before the node is released%s" %
                (nt, "" if tag == "avl" else " / before it is unlinked on the black-leaf path") if ok and nt else (msg or "no successful path"), where)
@@ -249,6 +255,24 @@ def run(prog, rep):
                "line %d: %s stores %s into a balance factor outside the retracing helpers: a node that is new, or a leaf moved into a removed node's place, has factor 0; "
                "a stale factor makes a later retrace stop early and the tree loses its height bound" % (line(badf[0]), f_.name, show(badf[0].get("r")) if badf[0]["k"] == "asg" else "an increment"), badf[0] if badf else f_.loc[0])
     rep.floor("C13.4", 5)
+    # ---- C13.5: the balancing decisions read live nodes ----------------------------------------------------
+    rep.rule("C13.5", "live node: in ptree-rb.c / ptree-avl.c no path reads a node (its colour or factor for a repaint or retrace decision, its links) after the node was "
+                      "handed to p_free: with an allocator that reuses or scrubs freed blocks the decision is made on garbage and the tree loses its balance invariant")
+    from plint import uaf
+    rel = uaf.releasers_for(prog)
+    for un in sorted(BAL_FIELDS):
+        bu = prog.unit(un)
+        for f_ in sorted(bu.functions.values(), key=lambda f: f.loc[0]):
+            if not any(c.get("callee") in rel for (b, i, c) in f_.calls()):
+                continue
+            ps = uaf.check_function(f_, rel)
+            if ps:
+                k, pth, ln, w, at = ps[0]
+                rep.ob("C13.5", f_, "live", False, "line %d: %s is read after the node was released at line %s: the repaint / retrace decision that follows is made on what the allocator "
+                       "left in the freed block" % (ln, pth, at), ln, w)
+            else:
+                rep.ob("C13.5", f_, "live", True, "nothing of a node is read after its release", f_.loc[0])
+    rep.floor("C13.5", 2)
 
 
 def leaf_path(st):
